@@ -1205,15 +1205,33 @@ func c11GenProg(r *Rng, cfg c11GenCfg) (*c11GProg, []*c11FileCtx) {
 	for i := 1; i < nf; i++ {
 		names = append(names, c11FileNames[(perm+i)%len(c11FileNames)])
 	}
+	// typedef-shape family: a chain that runs through the includes, every hop include-qualified
+	// (hop_chain in file i is an alias of hop_chain in file i+1); every file then includes all later
+	// ones, so that each file resolves the whole chain.
+	xchain := nf > 1 && r.Chance(15)
 	ctxs := make([]*c11FileCtx, nf)
 	for i := nf - 1; i >= 0; i-- {
 		incs := []*c11FileCtx{}
 		for j := i + 1; j < nf; j++ {
-			if r.Chance(60) || (i == 0 && j == 1) {
+			if xchain || r.Chance(60) || (i == 0 && j == 1) {
 				incs = append(incs, ctxs[j])
 			}
 		}
 		ctxs[i] = g.genFile(i, names[i], incs)
+	}
+	if xchain {
+		Stat("typedef-shape:cross-include-chain")
+		StatN("typedef-cross-include-hops", nf-1)
+		for i := nf - 1; i >= 1; i-- {
+			t := c11TBase("i64")
+			if i < nf-1 {
+				t = &c11GTy{name: names[i+1] + ".hop_chain"}
+			}
+			ctxs[i].f.typedefs = append(ctxs[i].f.typedefs, &c11GTypedef{name: "hop_chain", t: t})
+		}
+		ctxs[0].f.structs = append(ctxs[0].f.structs, &c11GStruct{kind: "struct", name: "HopChainUser", fields: []*c11GField{
+			{id: 1, name: "direct", t: &c11GTy{name: names[1] + ".hop_chain"}},
+			{id: 2, name: "many", t: c11TList(&c11GTy{name: names[1] + ".hop_chain"}), mod: "optional"}}})
 	}
 	p := &c11GProg{feat: g.feat}
 	for _, c := range ctxs {
